@@ -1,6 +1,6 @@
 """C12 - pipelines are reusable recipes (DESIGN 6/C12): Pipeline.tla re-subscribes the same pipeline object from fresh state; the replayer
 also interleaves two subscriptions of one pipeline and applies one operator value to two sources."""
-import vlib, parts_pipeline as pp, common
+import vlib, parts_multi, parts_pipeline as pp, common
 
 PID = 'C12'
 
@@ -10,6 +10,8 @@ def main(argv):
     vlib.build_harness()
     pp.run(rep, PID, common.pipeline_cfgs(rep, 'resub'), modes='ctl-unsafe,ctl-safe' if rep.tier == 'thorough' else 'ctl-unsafe')
     pp.run(rep, PID, common.pipeline_cfgs(rep, 'reuse'), modes='interleave,multi-apply')
+    # multi-source operator forms: one operator VALUE (MergeWith(b), ZipWith(b), TakeUntil(sig), ...) applied to the real source and to a decoy
+    parts_multi.run_reuse(rep, PID, rep.tier == 'thorough')
     rep.cov['rule'] = common.PIPE_RULE + ('; C12: (a) behaviours with a second Subscribe of the SAME pipeline object after the first closed (expected = fresh state), '
                                           '(b) two subscriptions of one pipeline stepped alternately, (c) one operator value applied to two sources, both stepped alternately; '
                                           'sources must not be subscribed at construction time and at most once per subscription')
